@@ -92,7 +92,10 @@ impl Property for Prop {
             _ => (gen_label(&mut rng, 3), false),
         };
         let ll = label_bytes(&label).len();
-        let max_plen = 65533 - ll;
+        // the limit is on PDU + protocol type + label AS WRITTEN: a substituted (re-use) label is not counted
+        // (after a configuration detour the label memory is empty again: the label is written in full)
+        let detour = primed && rng.chance(1, 4);
+        let max_plen = 65533 - if primed && !detour { 0 } else { ll };
         let (plen, sched) = if gen == "lengths" {
             // every PDU length once (quick: a stride through them), large buffers so that the
             // work per length stays bounded
@@ -122,20 +125,41 @@ impl Property for Prop {
         let mut dec = plain_dec(1 + rng.below(3), storage, 2, storage, MandTable::none());
         let cls = format!("sched{}:{}", sched, ["6B", "3B", "bcast", "6Bsub", "3Bsub", "3Bzero"][case]);
         if primed {
-            let spec = CallSpec { func: Func::Encap, pdu: b"", frag_id: 0, ptype: 0x0800, label, exts: None, ctx: None, buf_len: 32 };
-            let o = s.call(&spec, 0, rep, &replay);
-            if !o.completed() {
-                rep.count("trains.prime-failed");
-                return;
-            }
-            match dec_guard(&mut dec, s.emitted(&o)) {
-                Ok(Ok((DecapStatus::CompletedPkt(b, _), _))) => {
-                    give_back(&mut dec, b);
+            // the priming history: a packet with the same label; one time in four followed by
+            // disable / a packet with ANOTHER label / re-enable (with or without a limit), after which the
+            // train's label must be written in full again
+            let other = if detour { Some(gen_label(&mut rng, 0)) } else { None };
+            let steps: Vec<Label> = match other {
+                Some(o) => vec![label, o],
+                None => vec![label],
+            };
+            for (si, l) in steps.iter().enumerate() {
+                if si == 1 {
+                    s.enc.disable_re_use_label();
                 }
-                _ => {
-                    rep.count("trains.prime-rejected");
+                let spec = CallSpec { func: Func::Encap, pdu: b"", frag_id: 0, ptype: 0x0800, label: *l, exts: None, ctx: None, buf_len: 32 };
+                let o = s.call(&spec, 0, rep, &replay);
+                if !o.completed() {
+                    rep.count("trains.prime-failed");
                     return;
                 }
+                match dec_guard(&mut dec, s.emitted(&o)) {
+                    Ok(Ok((DecapStatus::CompletedPkt(b, _), _))) => {
+                        give_back(&mut dec, b);
+                    }
+                    _ => {
+                        rep.count("trains.prime-rejected");
+                        return;
+                    }
+                }
+            }
+            if detour {
+                match rng.below(3) {
+                    0 => s.enc.enable_re_use_label(),
+                    1 => s.enc.enable_re_use_label_with_max_consecutive(0),
+                    _ => s.enc.enable_re_use_label_with_max_consecutive(1 + rng.below(255) as u8),
+                }
+                rep.count("trains.primed-with-config-detour");
             }
         }
         let mut ctx = None;
@@ -158,7 +182,7 @@ impl Property for Prop {
             let mut b = sched_size(sched, &mut rng, calls - 1, remaining);
             if ctx.is_none() && sched >= 14 && calls == 1 {
                 // one of: 1..=8 bytes short of the complete packet (label as written)
-                let written = if primed { 0 } else { ll };
+                let written = if primed && !detour { 0 } else { ll };
                 let exact = 4 + written + plen;
                 b = exact.saturating_sub(1 + (key as usize / SCHEDULES) % 8).max(13);
             }
